@@ -7,6 +7,11 @@ def explore(run, lean):
     conc_corr.explore(run, "C04", 150 if run.tier == "quick" else 3000, escalate=bool(lean.get("broken")))
     conc_corr.explore_live(run, "C04", 30 if run.tier == "quick" else 600)
     ao_corr.explore_timed_placement(run, "C04", 30 if run.tier == "quick" else 800)
+    if run.tier == "thorough" and not run.violations:
+        # systematic part: every schedule with at most two preemptions of four small scenarios + random/PCT runs of three-poster
+        # scenarios, on the real threads, judged by the oracle (the same search the verdict logic uses when a tie breaks)
+        n_sys = conc_corr.bounded_preemption_search(run, "C04", budget_s=240)
+        run.count("systematic bounded-preemption executions", n_sys)
     run.extra["rule"] = ("scenarios: 1-3 poster threads x 1-4 fifo/lifo posts (+ handler self-posts), capacities 2,3,4,500, run on the "
                          "real ActiveObject under the deterministic scheduler with PCT (depth 1-3) or uniform random choosers and a "
                          "fair round-robin suffix; the recorded schedule is replayed on the Lean transition system and compared "
